@@ -149,7 +149,17 @@ example : QV.Spec.Ecma.mv "089".toList = some 89 := by decide
 example : QV.Spec.Ecma.mv "1_000".toList = some 1000 := by decide
 example : QV.Spec.Ecma.mv "1__0".toList = none := by decide
 example : BinaryToken.toOp .leftShift = some (.shift .shl) ∧ inRange (.integer 3) := ⟨rfl, by simp [inRange, representable]⟩
-example : binary ⟨id, fun a _ => a, fun a _ => a, fun a _ => a, fun a _ => a, fun a _ => a, fun _ _ => true,
-    fun _ _ => false, fun _ _ => true⟩ .div (.int 1) (.int 0) = .undefined "division by zero" := by decide
+def dummyFloatOps : FloatOps where
+  neg := id
+  add := fun a _ => a
+  sub := fun a _ => a
+  mul := fun a _ => a
+  div := fun a _ => a
+  rem := fun a _ => a
+  eq := fun _ _ => true
+  lt := fun _ _ => false
+  le := fun _ _ => true
+
+example : binary dummyFloatOps .div (.int 1) (.int 0) = .undefined "division by zero" := by decide
 
 end QV.Props.C03
